@@ -17,7 +17,7 @@ RULE = ('cases: a multiplier-free grammar AST (C04 generator) decorated with |n 
 ASSUMPTIONS = ['a multiplied anchor has exactly one branch and carries no ring marker (no documented meaning otherwise)',
                'ring ids used inside a multiplied unit are used nowhere else']
 
-NODE_ONLY = {'node_mult', 'node_mult_then_sym', 'node_mult_1', 'node_mult_first', 'node_mult_in_branch',
+NODE_ONLY = {'node_mult', 'node_mult_with_branch', 'node_mult_then_sym', 'node_mult_1', 'node_mult_first', 'node_mult_in_branch',
              'node_mult_annot'}
 
 FUZZ = dict(campaigns=8, runs=6000)
